@@ -19,7 +19,7 @@ RULE = (
     "producer (create ordered, create unordered, merge_coolers, coarsen_cooler) x destination (new file at / or "
     "a group; new group beside 1..3 neighbour collections at /, /a, /g/b; an existing plain non-root group). For "
     "each outer case the fault space is ENUMERATED COMPLETELY: {bin id -1, bin id n, lower-triangle pixel "
-    "(symmetric mode), in-chunk duplicate} x every chunk x every record position, plus an exception raised by the "
+    "(symmetric mode), in-chunk duplicate adjacent to / far from its original} x every chunk x every record position, plus an exception raised by the "
     "input iterator before every chunk index 0..m (merge/coarsen: injected by wrapping their chunk iterators), "
     "plus - thorough tier - a hard os._exit before every chunk index in a forked child. The file is restored from "
     "a pristine copy before each fault. Oracle over the history: the call raises (child dies); is_cooler(dest) is "
@@ -63,7 +63,7 @@ def _faulty_chunks(chunks, n, symmetric):
     """Enumerate (label, chunk_index, faulty stream) for every record fault, small to large."""
     for k, ch in enumerate(chunks):
         for p, r in enumerate(ch):
-            for kind in ("neg", "big", "tril", "dup"):
+            for kind in ("neg", "big", "tril", "dup", "dupfar"):
                 new = [list(x) for x in ch]
                 if kind == "neg":
                     new[p][p % 2] = -1
@@ -80,8 +80,16 @@ def _faulty_chunks(chunks, n, symmetric):
                         new[p][0], new[p][1] = r[0], r[0] - 1
                     else:
                         continue
-                else:
+                elif kind == "dup":
                     new.insert(p, list(r))
+                else:
+                    # the copy is placed as far from the original as the chunk allows (not adjacent)
+                    if len(ch) < 2:
+                        continue
+                    if p < len(ch) - 1:
+                        new.append(list(r))
+                    else:
+                        new.insert(0, list(r))
                 yield f"{kind}@chunk{k}[{p}]", k, [*chunks[:k], new, *chunks[k + 1:]]
 
 
@@ -241,8 +249,11 @@ def _run_reduce(setup: Setup, fault=None, observe=None, hard_exit=False):
                         chunk["bin1_id"][p], chunk["bin2_id"][p] = b, a
                     else:
                         chunk["bin1_id"][p] = a + 1
-                else:
+                elif kind == "dup":
                     chunk = {k: np.insert(v, p, v[p]) for k, v in chunk.items()}
+                else:
+                    far = len(chunk["bin1_id"]) if p < len(chunk["bin1_id"]) - 1 else 0
+                    chunk = {k: np.insert(v, far, v[p]) for k, v in chunk.items()}
             yield chunk
         if fault and fault[0] == "exc" and fault[1] == idx + 1:
             if hard_exit:
@@ -318,8 +329,10 @@ def check_faults(case, ctx: Ctx):
         else:
             for k, size in enumerate(chunk_sizes):
                 for p in range(size):
-                    for kind in ("neg", "big", "tril", "dup"):
+                    for kind in ("neg", "big", "tril", "dup", "dupfar"):
                         if kind == "tril" and not case["symmetric"]:
+                            continue
+                        if kind == "dupfar" and size < 2:
                             continue
                         one(f"{kind}@chunk{k}[{p}]", k, lambda k=k, p=p, kind=kind: _run_reduce(setup, ("rec", k, kind, p)))
             for k in range(m + 1):
